@@ -603,14 +603,30 @@ def template_agreement(rep):
 
     def show(ts):
         return ["".join(v if k == "s" else "{" + v + "}" for k, v in t) for t in ts]
+
+    def understood(*tss):
+        """A hole that is still a call or an attribute of an unresolved local (an object built
+        by a constructor the canonical form could not open) says nothing about what is
+        written there: the comparison is then not established, neither way."""
+        for ts in tss:
+            for t in ts:
+                for k, v in t:
+                    if k == "h" and ("<local>(" in v or "<local>." in v):
+                        raise AnalysisError(
+                            "save_data / read_aurel_data: a template hole is an unresolved "
+                            f"object (`{v[:60]}`): the templates cannot be compared")
     d1, d2 = uniq(templates_with(sv, "all_iterations")), uniq(templates_with(rd, "all_iterations"))
     if not d1 or not d2:
         raise AnalysisError("save_data / read_aurel_data: cache directory template not found")
+    if d1 != d2:
+        understood(d1, d2)
     rep.check(d1 == d2, "template-agreement", f"{RD}::save_data~read_aurel_data::cache-dir",
               f"cache directory templates differ: writer {show(d1)} reader {show(d2)}", node=rd)
     f1, f2 = uniq(templates_with(sv, ".hdf5")), uniq(templates_with(rd, ".hdf5"))
     if not f1 or not f2:
         raise AnalysisError("save_data / read_aurel_data: file name template not found")
+    if not (f1 == f2 and len(f1) == 1):
+        understood(f1, f2)
     rep.check(f1 == f2 and len(f1) == 1, "template-agreement",
               f"{RD}::save_data~read_aurel_data::file-name",
               f"file name templates differ: writer {show(f1)} reader {show(f2)}", node=rd)
@@ -621,6 +637,8 @@ def template_agreement(rep):
     def tail(t):        # the part after the variable name: ' rl=<level>'
         i = max(j for j, (k, v) in enumerate(t) if k == "s" and " rl=" in v)
         return t[i:]
+    if not {tuple(tail(t)) for t in k1} <= {tuple(tail(t)) for t in k2}:
+        understood(k1, k2)
     rep.check({tuple(tail(t)) for t in k1} <= {tuple(tail(t)) for t in k2},
               "template-agreement", f"{RD}::save_data~read_aurel_data::dataset-key",
               f"dataset key templates differ: writer {show(k1)} reader {show(k2)}", node=rd)
@@ -672,7 +690,7 @@ def one_append_per_column(rep):
     # the list of columns iterated for the appends holds each name once
     inits = [a for a in assignments_to(fn, "var") if isinstance(a, ast.Assign)
              and loop not in ancestors(a)]
-    ok_init = bool(inits) and all(unparse(a.value).startswith(("list(set(", "sorted(set("))
+    ok_init = bool(inits) and all(rtext(fn, a.value).startswith(("list(set(", "sorted(set("))
                                   for a in inits)
     rep.check(ok_init, "column-shape", key + "::unique-columns::init",
               "the list of variables to read is not de-duplicated: a name listed twice (e.g. a "
